@@ -93,6 +93,8 @@ static bool build(JsonVariant dst, const char*& p) {
     case 'S': { string s = hexrun(); return dst.set(s); }
     case 'L': { string s = hexrun(); return dst.set(keep(s)); }
     case 'R': { string s = hexrun(); return dst.set(serialized(s)); }
+    case 'B': { string s = hexrun(); return dst.set(MsgPackBinary(s.data(), s.size())); }
+    case 'X': { string s = hexrun(); if (s.empty()) return false; return dst.set(MsgPackExtension((int8_t)s[0], s.data() + 1, s.size() - 1)); }
     case '[': {
       JsonArray a = dst.to<JsonArray>(); bool ok = true;
       if (*p == ']') { p++; return true; }
@@ -137,6 +139,8 @@ static bool buildDoc(JsonDocument& doc, const string& spec) {
 }
 
 // Spying allocator: ledger of live blocks, call log, failure schedule (positions of allocate / growing reallocate)
+static string GLOG;   // chronological log shared by all logging allocators
+
 struct Spy : Allocator {
   int id;
   std::map<void*, size_t> live;
@@ -154,7 +158,7 @@ struct Spy : Allocator {
   void* allocate(size_t n) override {
     calls++; nalloc++; requested += n;
     bool f = shouldFail();
-    if (logging) log += " a" + std::to_string(id) + ":A" + std::to_string(n) + (f ? "!" : "");
+    if (logging) GLOG += " a" + std::to_string(id) + ":A" + std::to_string(n) + (f ? "!" : "");
     if (f) { nfailed++; return nullptr; }
     void* p = malloc(n ? n : 1);
     live[p] = n;
@@ -162,7 +166,7 @@ struct Spy : Allocator {
   }
   void deallocate(void* p) override {
     nfree++;
-    if (logging) log += " a" + std::to_string(id) + ":D";
+    if (logging) GLOG += " a" + std::to_string(id) + ":D";
     if (!live.count(p)) { bad = true; std::cout << "BADFREE" << std::endl; abort(); }
     memset(p, 0xDD, live[p]);
     live.erase(p);
@@ -175,7 +179,7 @@ struct Spy : Allocator {
     bool growing = n > old || !p;
     if (growing) requested += n - old;
     bool f = growing && shouldFail();
-    if (logging) log += " a" + std::to_string(id) + ":R" + std::to_string(n) + (f ? "!" : "");
+    if (logging) GLOG += " a" + std::to_string(id) + ":R" + std::to_string(n) + (f ? "!" : "");
     if (f) { nfailed++; return nullptr; }
     // always move the block so that stale pointers are caught by ASan
     void* q = malloc(n ? n : 1);
